@@ -163,6 +163,33 @@ int main (int argc, char** argv)
     Matrix<2,2,double> ai = inv (a);
     out_m ("inv", ai); out_m ("l", ai * a); out_m ("r", a * ai);
     out ("det", a[0][0]*a[1][1] - a[0][1]*a[1][0]); }, 16, 1024);
+  // Gauss-Jordan at N = 3: one concolic run steered into each of the 36 orders in which full pivoting can visit rows and columns
+  for (int s=0; s<6; s++) for (int t=0; t<6; t++) {
+    static const int perms3[6][3] = { {0,1,2}, {0,2,1}, {1,0,2}, {1,2,0}, {2,0,1}, {2,1,0} };
+    char name[32]; snprintf (name, 32, "gj3_o%d%d", s, t);
+    fn (name, [=] {
+      Matrix<3,3,double> a;
+      for (unsigned i=0; i<3; i++) for (unsigned j=0; j<3; j++) {
+        real_t v = real_t (0.05) + real_t (0.01) * real_t (int (3*i+j) * ((i+j)%2 ? -1 : 1));
+        for (int r=0; r<3; r++) if (perms3[s][r] == int(i) && perms3[t][r] == int(j)) v = (r == 0) ? 4 : (r == 1) ? -2 : 1;
+        a[i][j] = in_at (nm ("a", i, j).c_str(), v); }
+      Matrix<3,3,double> ai = inv (a);
+      out_m ("inv", ai); out_m ("l", ai * a); out_m ("r", a * ai);
+      if (!symbolic) { Matrix<3,3,double> l = ai * a, r = a * ai;
+        for (unsigned i=0; i<3; i++) for (unsigned j=0; j<3; j++) { expect ("inv(A) A = 1 (steered pivot order)", l[i][j], i == j ? 1.0 : 0.0, 1e-12); expect ("A inv(A) = 1 (steered pivot order)", r[i][j], i == j ? 1.0 : 0.0, 1e-12); } } }, 1);
+  }
+  // real and imaginary parts, conjugate, squared norm and comparisons of a complex vector
+  fn ("complex_vector_parts", [] { Vector<3,cd> v; for (unsigned i=0; i<3; i++) v[i] = complex_in (nm ("v", i));
+    Vector<3,double> re = real (v), im = imag (v); Vector<3,cd> c = conj (v);
+    for (unsigned i=0; i<3; i++) out (nm ("re", i), re[i]); for (unsigned i=0; i<3; i++) out (nm ("im", i), im[i]); for (unsigned i=0; i<3; i++) out (nm ("c", i), c[i]);
+    out ("nsq", normsq (v)); out ("nsqre", normsq (re)); out ("nrm2", norm (re) * norm (re));
+    if (!symbolic) { for (unsigned i=0; i<3; i++) { expect ("real part of a complex vector", re[i], v[i].real ()); expect ("imaginary part of a complex vector", im[i], v[i].imag ()); expect ("conjugate of a complex vector", c[i], std::conj (v[i])); }
+      expect_true ("a vector equals itself and differs from its negative", v == v && !(v != v) && (v != -v || normsq (v) == 0) && !(re == im && re != im)); } });
+  fn ("matrix_normsq", [] { Matrix<2,3,double> a = mat_in<2,3> ("a"); Matrix<3,2,double> b = mat_in<3,2> ("b"); Matrix<2,2,cd> c = cmat_in<2,2> ("c");
+    out ("ns23", normsq (a)); out ("ns32", normsq (b)); out ("nsc", normsq (c));
+    if (!symbolic) { double w = 0; for (unsigned i=0; i<2; i++) for (unsigned j=0; j<3; j++) w += a[i][j] * a[i][j]; expect ("normsq of a 2x3 matrix is the sum of squares", normsq (a), w);
+      w = 0; for (unsigned i=0; i<3; i++) for (unsigned j=0; j<2; j++) w += b[i][j] * b[i][j]; expect ("normsq of a 3x2 matrix is the sum of squares", normsq (b), w);
+      w = 0; for (unsigned i=0; i<2; i++) for (unsigned j=0; j<2; j++) w += std::norm (c[i][j]); expect ("normsq of a complex 2x2 matrix is the sum of squared moduli", normsq (c), cd (w)); } });
   fn ("gj3_run", [] { Matrix<3,3,double> a = mat_in<3,3> ("a");
     Matrix<3,3,double> ai = inv (a); out_m ("inv", ai);
     if (!symbolic) { Matrix<3,3,double> l = ai * a, r = a * ai;
